@@ -327,7 +327,7 @@ def run(ctx):
     ctx.assumptions = ["numpy astype/tobytes/frombuffer behave as modelled (two's complement wrap, IEEE bits kept)",
                        "the DDS text is opaque to the theorems (C07); the separator hypothesis of C05_dds_embedded "
                        "is checked on every real body",
-                       "negative length words and what numpy does on short buffers are reported as errors by the "
+                       "negative length words are reported as errors by the "
                        "model and compared only as error/ok"]
     ctx.proof_phase()
     explore(ctx, ctx.tier)
